@@ -484,6 +484,19 @@ impl<'a, T: Evaluate> PiecewiseEvaluator<'a, T> {
     }
 }
 
+/// Read-only view of the evaluator's state for external verification harnesses.
+#[cfg(piecewise_polynomial_verif)]
+impl<'a, T> PiecewiseEvaluator<'a, T> {
+    /// (segments already skipped, segments still ahead of the cursor, bits of the last argument)
+    pub fn verif_state(&self) -> (usize, usize, u64) {
+        (
+            self.all_segments_front.len() - self.tail.len(),
+            self.tail.len(),
+            self.last_evaluation.to_bits(),
+        )
+    }
+}
+
 impl<T: Evaluate> Evaluate for Piecewise<T> {
     #[inline]
     fn evaluate(&self, x: f64) -> f64 {
